@@ -34,7 +34,9 @@ def run(c):
         if out.shape != tuple(c["shape"]) or not vals <= {0.0, 1.0}:
             return {"error": f"shape {out.shape} values {sorted(vals)[:4]}"}
         return {"out": out.astype(int).tolist()}
-    mats = {f"m{i}": fdtdx.Material(permittivity=float(p)) for i, p in enumerate(c["perms"])}
+    # insertion order of the materials dict is arbitrary (the pipeline orders materials by permittivity)
+    order = c.get("dict_order") or list(range(len(c["perms"])))
+    mats = {f"m{i}": fdtdx.Material(permittivity=float(c["perms"][i])) for i in order}
     mod = init(PillarDiscretization(axis=c["axis"], single_polymer_columns=c["single"], distance_metric=c["metric"]), mats, c["shape"])
     res = {"allowed": np.asarray(mod._allowed_indices).astype(int).tolist()}
     if c["kind"] == "pillar":
